@@ -1,0 +1,8 @@
+//go:build verif
+
+package userauth
+
+// VerifInitMsgBytes is newUserAuthInitMsg(user).toBytes() (verification harness only).
+func VerifInitMsgBytes(user string) []byte {
+	return newUserAuthInitMsg(user).toBytes()
+}
